@@ -15,6 +15,7 @@ package core
 import (
 	"context"
 	"errors"
+	"reflect"
 	"strings"
 
 	. "github.com/Comcast/sheens/match"
@@ -176,7 +177,14 @@ func (a *FuncAction) Exec(ctx context.Context, bs Bindings, props StepProps) (*E
 		// place (Bindings.Remove and friends do).  If it then fails
 		// or (as a guard) rejects, processing continues with those
 		// bindings, so put the permanent ones back there, too.
+		// (Only what is no longer there: an action that left
+		// its input alone - every interpreted action gets a copy
+		// - must not cause a write to the caller's bindings,
+		// which somebody else may be reading.)
 		for p, v := range permanent {
+			if cur, have := bs[p]; have && reflect.DeepEqual(cur, v) {
+				continue
+			}
 			bs[p] = v
 		}
 	}
